@@ -100,3 +100,10 @@ Lemma ex_temporal_mutations :
   reports cfg830 (fprint ex_onset_bad) ex_onset_bad (kind_code K_ONSET_NO_DEF_TAG_FOUND)
   /\ reports cfg830 (fprint ex_duration_bad) ex_duration_bad (kind_code K_DURATION_WRONG_NUMBER_GROUPS).
 Proof. split; (eexists; split; [vm_compute; reflexivity | vm_compute; tauto]). Qed.
+
+(* repeats inside a group that is the ONLY member of its enclosing group: "Sensory-event,((Red,Red))" and
+   "Sensory-event,(((Red,Blue),(Blue,Red)))" *)
+Lemma ex_nested_repeats :
+  reports cfg830 (fprint ex_nested_rep1) ex_nested_rep1 (kind_code K_HED_TAG_REPEATED)
+  /\ reports cfg830 (fprint ex_nested_rep2) ex_nested_rep2 (kind_code K_HED_TAG_REPEATED_GROUP).
+Proof. split; (eexists; split; [vm_compute; reflexivity | vm_compute; tauto]). Qed.
